@@ -354,23 +354,31 @@ pl = PL()
 
 
 class substituted:
-    """with substituted(module, ...): the modules' global `pl` AND sys.modules['polars'] (for function-local
-    `import polars as pl`) are the model."""
+    """with substituted(): in every loaded rtflite module the global bound to the real polars module, AND
+    sys.modules['polars'] (for function-local `import polars as pl`), are the model.  (Module arguments are accepted for
+    backward compatibility and ignored: the substitution is identity-based over all rtflite modules, so it keeps working
+    when a refactoring moves a polars call into another module.)"""
+
+    _REAL = None
 
     def __init__(self, *mods):
-        self.mods = mods
+        import sys
+        if substituted._REAL is None:
+            real = sys.modules.get("polars")
+            if real is None or real is pl:
+                try:
+                    import importlib
+                    real = importlib.import_module("polars")
+                except Exception:  # noqa: BLE001
+                    real = None
+            substituted._REAL = real
+        from vf.hlib import swapped
+        self._swap = swapped((substituted._REAL, pl))
 
     def __enter__(self):
-        import sys
-        self.saved = [(m, m.pl) for m in self.mods if hasattr(m, "pl")]
-        for m, _ in self.saved:
-            m.pl = pl
-        self.real = sys.modules.get("polars")
-        sys.modules["polars"] = pl
+        self._swap.__enter__()        # also replaces sys.modules['polars'] (swapped handles module objects)
         return pl
 
     def __exit__(self, *a):
-        import sys
-        for m, old in self.saved:
-            m.pl = old
-        sys.modules["polars"] = self.real
+        self._swap.__exit__()
+        return False
